@@ -13,6 +13,8 @@ import (
 type FileSrc struct {
 	Hist    *APIHist   `json:"hist,omitempty"`
 	Foreign *ref.FFile `json:"foreign,omitempty"`
+	// ZeroLengths (foreign files): the length word of every track chunk is written as zero.
+	ZeroLengths bool `json:"zero_lengths,omitempty"`
 }
 
 type srcFile struct {
@@ -25,6 +27,14 @@ type srcFile struct {
 func (fs *FileSrc) produce() srcFile {
 	if fs.Foreign != nil {
 		b, rg := fs.Foreign.Encode()
+		if fs.ZeroLengths {
+			b = append([]byte{}, b...)
+			for i := 0; i+3 < len(rg); i++ {
+				if rg[i] == "chunk-len" {
+					b[i] = 0
+				}
+			}
+		}
 		return srcFile{data: b, regions: rg, expected: fs.Foreign.Expected()}
 	}
 	val, m, _ := fs.Hist.Build()
@@ -56,7 +66,7 @@ func (fs *FileSrc) size() int {
 
 func (fs *FileSrc) shrinks(try func(*FileSrc) bool) bool {
 	if fs.Foreign != nil {
-		return shrinkForeign(fs.Foreign, func(f *ref.FFile) bool { return try(&FileSrc{Foreign: f}) })
+		return shrinkForeign(fs.Foreign, func(f *ref.FFile) bool { return try(&FileSrc{Foreign: f, ZeroLengths: fs.ZeroLengths}) })
 	}
 	return fs.Hist.shrinks(func(h *APIHist) bool { return try(&FileSrc{Hist: h}) })
 }
@@ -102,6 +112,12 @@ func genForeign(r *core.Rand, tier string, bigAliens ...bool) *ref.FFile {
 	for t := 0; t < nTracks; t++ {
 		for aliens && r.Chance(1, 3) {
 			f.Chunks = append(f.Chunks, genAlien(r, bigAliens...))
+		}
+		if len(bigAliens) > 0 && bigAliens[0] && r.Chance(1, 400) {
+			// thousands of (empty) unknown chunks in a row
+			for i := r.PickInt(4095, 4096, 4097, 5000); i > 0; i-- {
+				f.Chunks = append(f.Chunks, ref.FChunk{AlienType: "JUNK"})
+			}
 		}
 		var tr ref.FChunk
 		nEv := r.Range(0, maxEv)
